@@ -1686,7 +1686,7 @@ class Fxp():
         return copy.deepcopy(self)
 
     def like(self, x):
-        if isinstance(x, self.__class__):
+        if isinstance(x, Fxp):
             new_raw_val = _rescale_raw(self.val, x.n_frac - self.n_frac)
             return  x.deepcopy().set_val(new_raw_val, raw=True)
         else:
@@ -1823,7 +1823,7 @@ class Fxp():
             elif not isinstance(out_arr, Fxp):
                 return self.__class__(out_arr)
 
-        elif self.config._array_output_type == 'array' and isinstance(out_arr, self.__class__):
+        elif self.config._array_output_type == 'array' and isinstance(out_arr, Fxp):
             return np.asarray(out_arr.get_val())
         
         return out_arr
